@@ -8,11 +8,17 @@
         a, b (operands: [k, r, w, base, idx, sc, d]), t (jump target), s (text)].
 
    Machine context  M = [T |-> thread, mem |-> shared memory, b |-> store buffer]
-     T.r / T.z   registers.  A register holds a TLC integer v (|v| < 2^31) and
-                 a flag z: the 64-bit content is v sign-extended, or - when z
-                 and v < 0 - v's low 32 bits zero-extended (what a 32-bit write
-                 leaves behind).  Data movement carries z; 64-bit arithmetic
-                 on such a value is outside the modelled range (err).
+     T.r / T.h   general registers: two signed 32-bit words, low (r) and high
+                 (h).  Arithmetic is modelled on values that are the sign
+                 extension of their low word (h = -1 or 0 accordingly); any
+                 other content (what a 32-bit write of a negative value leaves
+                 behind: h = 0; the bit pattern of a double) is carried by data
+                 movement, stores and cmpxchg only - 64-bit arithmetic on it
+                 is outside the modelled range (err).
+     T.x         xmm0, xmm1: <<low word, high word>> of the low 64 bits.  The
+                 scalar SSE arithmetic and conversions are modelled for floats
+                 and doubles whose value is an integer n, |n| < 2^20 (exact
+                 in both formats; anything else is outside the range: err).
      T.stk       the thread's private stack, one byte per element
      mem         shared memory, byte addressed (function address -> 0..255)
      ro          addresses no store may touch (any store there is a violation, even of the same value)
@@ -28,8 +34,10 @@ CONSTANTS TSO      \* TRUE: per-thread FIFO store buffers (x86-TSO); FALSE: sequ
 
 StackBase(t) == 100000 * t
 
-Val(v, z) == [v |-> v, z |-> z, bad |-> FALSE]
-BadVal == [v |-> 0, z |-> FALSE, bad |-> TRUE]
+SignOf(v) == IF v < 0 THEN -1 ELSE 0
+Val2(v, h) == [v |-> v, h |-> h, bad |-> FALSE]                  \* 64-bit content: low word v, high word h
+Val(v, z) == Val2(v, IF z THEN 0 ELSE SignOf(v))                 \* z: zero-extended, else sign-extended
+BadVal == [v |-> 0, h |-> 0, bad |-> TRUE]
 
 Fail(M, msg) == IF M.T.err = "" THEN [M EXCEPT !.T.err = msg] ELSE M
 
@@ -56,15 +64,11 @@ RdMem(M, a, w) ==
   ELSE IF w = 1 THEN Val(by[1], FALSE)
   ELSE IF w = 2 THEN Val(by[1] + 256 * by[2], FALSE)
   ELSE IF w = 4 THEN Val(S32(by[1], by[2], by[3], by[4]), FALSE)
-  ELSE LET lo == S32(by[1], by[2], by[3], by[4])
-           hi == {by[5], by[6], by[7], by[8]}
-       IN IF hi = {0} THEN Val(lo, lo < 0)
-          ELSE IF hi = {255} /\ lo < 0 THEN Val(lo, FALSE)
-          ELSE BadVal                                       \* a 64-bit value outside the modelled range
+  ELSE Val2(S32(by[1], by[2], by[3], by[4]), S32(by[5], by[6], by[7], by[8]))
 
 ByteOf(x, i) ==            \* byte i (0-based) of the 64-bit content of value x
   IF i < 4 THEN (x.v \div Pow2(8 * i)) % 256
-  ELSE IF x.v < 0 /\ ~x.z THEN 255 ELSE 0
+  ELSE (x.h \div Pow2(8 * (i - 4))) % 256
 
 Bytes(x, w) == [i \in 1..w |-> ByteOf(x, i - 1)]
 
@@ -91,15 +95,15 @@ WrMem(M, a, w, x, buffered) ==
 
 (* --------------------------------------------------------- registers ---- *)
 RdReg(T, r, w) ==
-  IF w = 8 THEN Val(T.r[r], T.z[r])
+  IF w = 8 THEN Val2(T.r[r], T.h[r])
   ELSE IF w = 4 THEN Val(T.r[r], FALSE)
   ELSE IF w = 2 THEN Val(T.r[r] % 65536, FALSE)
   ELSE Val(T.r[r] % 256, FALSE)
 
 WrReg(M, r, w, x) ==
   IF x.bad THEN Fail(M, "range: register value not representable")
-  ELSE IF w = 8 THEN [M EXCEPT !.T.r[r] = x.v, !.T.z[r] = x.z]
-  ELSE IF w = 4 THEN [M EXCEPT !.T.r[r] = x.v, !.T.z[r] = (x.v < 0)]     \* a 32-bit write zeroes bits 32..63
+  ELSE IF w = 8 THEN [M EXCEPT !.T.r[r] = x.v, !.T.h[r] = x.h]
+  ELSE IF w = 4 THEN [M EXCEPT !.T.r[r] = x.v, !.T.h[r] = 0]             \* a 32-bit write zeroes bits 32..63
   ELSE IF w = 2 THEN [M EXCEPT !.T.r[r] = (@ - (@ % 65536)) + (x.v % 65536)]
   ELSE [M EXCEPT !.T.r[r] = (@ - (@ % 256)) + (x.v % 256)]
 
@@ -107,7 +111,8 @@ EA(T, o) == o.d + (IF o.base # "" THEN T.r[o.base] ELSE 0) + (IF o.idx # "" THEN
 
 (* the value an ALU operation computes with: canonical at width w *)
 Num(w, x) == IF w = 1 THEN x.v % 256 ELSE IF w = 2 THEN x.v % 65536 ELSE x.v
-Unrep(w, x) == x.bad \/ (w = 8 /\ x.z /\ x.v < 0)
+Unrep(w, x) == x.bad \/ (w = 8 /\ x.h # SignOf(x.v))
+Same(w, x, y) == Num(w, x) = Num(w, y) /\ (w = 8 => x.h = y.h)        \* equal as w-byte bit patterns
 Sx(w, n) == IF w = 1 /\ n >= 128 THEN n - 256 ELSE IF w = 2 /\ n >= 32768 THEN n - 65536 ELSE n
 ULess(x, y) == IF (x < 0) = (y < 0) THEN x < y ELSE y < 0     \* unsigned order of two's-complement values
 
@@ -123,6 +128,32 @@ WrOp(M, o, w, x, buffered) ==
 Adv(M) == [M EXCEPT !.T.pc = @ + 1, !.T.ph = 0]
 Flags(M, z, lt, bl, known) == [M EXCEPT !.T.fl = [z |-> z, lt |-> lt, b |-> bl, known |-> known]]
 
+(* ------------------------------------------------- floating registers ---- *)
+(* IEEE 754 single / double of an integer n, |n| < 2^20, as signed 32-bit words (the low word of
+   such a double is 0), and back.  ok = FALSE: the bits are no such number.                       *)
+FMax == 1048576
+Log2(m) == CHOOSE e \in 0..20 : Pow2(e) <= m /\ m < Pow2(e + 1)
+SetSign(n, b) == IF n < 0 THEN (b - 2147483647) - 1 ELSE b
+ClrSign(b) == IF b < 0 THEN (b + 2147483647) + 1 ELSE b
+F32Bits(n) == IF n = 0 THEN 0
+              ELSE LET m == Abs(n) e == Log2(m) IN SetSign(n, (127 + e) * Pow2(23) + (m - Pow2(e)) * Pow2(23 - e))
+F64Hi(n)   == IF n = 0 THEN 0
+              ELSE LET m == Abs(n) e == Log2(m) IN SetSign(n, (1023 + e) * Pow2(20) + (m - Pow2(e)) * Pow2(20 - e))
+FDecW(word, bias, mb) ==
+  LET b == ClrSign(word)
+      e == (b \div Pow2(mb)) - bias
+      mant == b % Pow2(mb)
+  IN IF word = 0 THEN [ok |-> TRUE, n |-> 0]
+     ELSE IF e < 0 \/ e > 19 \/ mant % Pow2(mb - e) # 0 THEN [ok |-> FALSE, n |-> 0]
+     ELSE LET m == Pow2(e) + mant \div Pow2(mb - e) IN [ok |-> TRUE, n |-> IF word < 0 THEN 0 - m ELSE m]
+FDec(n, x) == IF x.bad THEN [ok |-> FALSE, n |-> 0]
+              ELSE IF n = 4 THEN FDecW(x.v, 127, 23)
+              ELSE IF x.v # 0 THEN [ok |-> FALSE, n |-> 0] ELSE FDecW(x.h, 1023, 20)
+(* n = 4 / 8 bytes of raw bits from an xmm register or from memory, as a Val2 *)
+RdX(M, o, n) == IF o.k = "xmm" THEN Val2(M.T.x[o.r][1], IF n = 8 THEN M.T.x[o.r][2] ELSE 0)
+                ELSE IF o.k = "mem" THEN RdMem(M, EA(M.T, o), n)
+                ELSE BadVal
+
 (* ---------------------------------------------------- classification ---- *)
 MemOperand(i) == IF i.b.k = "mem" THEN i.b ELSE IF i.a.k = "mem" THEN i.a ELSE [k |-> "none"]
 ReadsAndWritesMem(i) ==
@@ -131,7 +162,7 @@ ReadsAndWritesMem(i) ==
 Locked(i) == i.lock = 1 \/ (i.op = "xchg" /\ MemOperand(i).k = "mem") \/ i.op = "mfence"
 TouchesShared(M, i) ==
   i.op # "lea" /\ MemOperand(i).k = "mem" /\ Shared(M, EA(M.T, MemOperand(i)))
-PlainStore(i) == i.op = "mov" /\ i.b.k = "mem"
+PlainStore(i) == i.op \in {"mov", "movss", "movsd"} /\ i.b.k = "mem"
 (* An unlocked read-modify-write of shared memory is two bus transactions: it
    is split into a load step (latch) and a compute+store step.               *)
 NeedsSplit(M, i) == ReadsAndWritesMem(i) /\ ~Locked(i) /\ TouchesShared(M, i)
@@ -230,15 +261,15 @@ Exec(M, i) ==
          LET cur == RdOp(M, i.b, i.w)
              acc == RdReg(T, "rax", i.w)
          IN IF cur.bad THEN Fail(M, "range: cmpxchg")
-            ELSE IF Num(i.w, cur) = Num(i.w, acc)
+            ELSE IF Same(i.w, cur, acc)
             THEN Adv(Flags(WrOp(M, i.b, i.w, RdOp(M, i.a, i.w), TSO /\ i.lock = 0), TRUE, FALSE, FALSE, FALSE))
             ELSE LET M2 == IF i.lock = 1 THEN M ELSE WrOp(M, i.b, i.w, cur, TSO)   \* an unlocked cmpxchg writes the old value back
-                 IN Adv(Flags(WrReg(M2, "rax", i.w, Val(Num(i.w, cur), FALSE)), FALSE, FALSE, FALSE, FALSE))
+                 IN Adv(Flags(WrReg(M2, "rax", i.w, IF i.w = 8 THEN cur ELSE Val(Num(i.w, cur), FALSE)), FALSE, FALSE, FALSE, FALSE))
     [] i.op = "xchg" ->
          LET x == RdOp(M, i.a, i.w)
              y == RdOp(M, i.b, i.w)
          IN Adv(WrOp(WrOp(M, i.a, i.w, y, FALSE), i.b, i.w, x, FALSE))
-    [] i.op = "cqo" -> Adv(WrReg(M, "rdx", 8, Val(IF T.r["rax"] < 0 /\ ~T.z["rax"] THEN -1 ELSE 0, FALSE)))
+    [] i.op = "cqo" -> Adv(WrReg(M, "rdx", 8, Val(IF T.h["rax"] < 0 THEN -1 ELSE 0, FALSE)))
     [] i.op = "cdq" -> Adv(WrReg(M, "rdx", 4, Val(IF T.r["rax"] < 0 THEN -1 ELSE 0, FALSE)))
     [] i.op \in {"idiv", "div"} ->
          (* rdx:rax / operand -> quotient in rax, remainder in rdx.  Modelled for dividends that are the
@@ -269,6 +300,46 @@ Exec(M, i) ==
                                              IF j > o /\ j <= o + n THEN (IF i.op = "repstosb" THEN fill ELSE T.stk[so + (j - o)]) ELSE T.stk[j]],
                                !.T.r["rcx"] = 0, !.T.r["rdi"] = dst + n,
                                !.T.r["rsi"] = IF i.op = "repmovsb" THEN src + n ELSE @])
+    [] i.op \in {"movss", "movsd"} ->
+         (* scalar move, 4 / 8 bytes of raw bits; a load from memory zeroes the rest of the register,
+            a register-to-register movss keeps it *)
+         LET n == IF i.op = "movss" THEN 4 ELSE 8
+             src == RdX(M, i.a, n)
+         IN IF src.bad THEN Fail(M, "range: sse load")
+            ELSE IF i.b.k = "xmm"
+            THEN Adv([M EXCEPT !.T.x[i.b.r] = IF n = 8 THEN <<src.v, src.h>>
+                                              ELSE IF i.a.k = "xmm" THEN <<src.v, @[2]>> ELSE <<src.v, 0>>])
+            ELSE IF i.b.k = "mem" THEN Adv(WrMem(M, EA(T, i.b), n, src, TSO))
+            ELSE Fail(M, "sse move form not modelled")
+    [] i.op = "movdq" ->          \* movd (w = 4) / movq (w = 8) between xmm and a general register
+         IF i.a.k = "xmm" /\ i.b.k = "reg" THEN Adv(WrReg(M, i.b.r, i.w, RdX(M, i.a, 8)))
+         ELSE IF i.a.k = "reg" /\ i.b.k = "xmm"
+         THEN LET x == RdReg(T, i.a.r, i.w) IN Adv([M EXCEPT !.T.x[i.b.r] = <<x.v, IF i.w = 8 THEN x.h ELSE 0>>])
+         ELSE Fail(M, "movd/movq form not modelled")
+    [] i.op \in {"cvtsi2ss", "cvtsi2sd"} ->
+         LET xv == RdOp(M, i.a, i.w) IN
+         IF Unrep(i.w, xv) \/ i.w < 4 \/ Abs(xv.v) >= FMax \/ i.b.k # "xmm" THEN Fail(M, "range: " \o i.op)
+         ELSE Adv([M EXCEPT !.T.x[i.b.r] = IF i.op = "cvtsi2ss" THEN <<F32Bits(xv.v), @[2]>> ELSE <<0, F64Hi(xv.v)>>])
+    [] i.op \in {"cvttss2si", "cvttsd2si"} ->
+         LET d == FDec(IF i.op = "cvttss2si" THEN 4 ELSE 8, RdX(M, i.a, IF i.op = "cvttss2si" THEN 4 ELSE 8)) IN
+         IF ~d.ok \/ i.b.k # "reg" \/ i.w < 4 THEN Fail(M, "range: " \o i.op)
+         ELSE Adv(WrReg(M, i.b.r, i.w, Val(d.n, FALSE)))
+    [] i.op \in {"cvtss2sd", "cvtsd2ss"} ->
+         LET d == FDec(IF i.op = "cvtss2sd" THEN 4 ELSE 8, RdX(M, i.a, IF i.op = "cvtss2sd" THEN 4 ELSE 8)) IN
+         IF ~d.ok \/ i.b.k # "xmm" THEN Fail(M, "range: " \o i.op)
+         ELSE Adv([M EXCEPT !.T.x[i.b.r] = IF i.op = "cvtss2sd" THEN <<0, F64Hi(d.n)>> ELSE <<F32Bits(d.n), @[2]>>])
+    [] i.op \in {"addss", "subss", "mulss", "divss", "addsd", "subsd", "mulsd", "divsd"} ->
+         (* dst (xmm) := dst op src, on integer-valued operands with an integer-valued result *)
+         LET n == IF i.op \in {"addss", "subss", "mulss", "divss"} THEN 4 ELSE 8
+             y == FDec(n, RdX(M, i.a, n))
+             x == IF i.b.k = "xmm" THEN FDec(n, RdX(M, i.b, n)) ELSE [ok |-> FALSE, n |-> 0]
+             o == CASE i.op \in {"addss", "addsd"} -> "a" [] i.op \in {"subss", "subsd"} -> "s"
+                    [] i.op \in {"mulss", "mulsd"} -> "m" [] OTHER -> "d"
+         IN IF ~x.ok \/ ~y.ok THEN Fail(M, "range: " \o i.op)
+            ELSE IF o = "d" /\ (y.n = 0 \/ x.n % y.n # 0) THEN Fail(M, "range: inexact " \o i.op)
+            ELSE LET res == CASE o = "a" -> x.n + y.n [] o = "s" -> x.n - y.n [] o = "m" -> x.n * y.n [] o = "d" -> TDiv(x.n, y.n)
+                 IN IF Abs(res) >= FMax THEN Fail(M, "range: " \o i.op)
+                    ELSE Adv([M EXCEPT !.T.x[i.b.r] = IF n = 4 THEN <<F32Bits(res), @[2]>> ELSE <<0, F64Hi(res)>>])
     [] i.op \in {"mfence", "pause"} -> Adv(M)
     [] i.op = "ret" ->
          (* the function's result is rax as a long; then the next repetition starts (Atomic.tla) *)
